@@ -13,6 +13,7 @@ import CstructModel.Compile
 import CstructModel.DefParser
 import CstructModel.Update
 import CstructModel.BitBufferProto
+import CstructModel.Call
 open Cstruct Cstruct.Proto
 
 def pairs? (s : Sexp) : Option (List (String × Int)) :=
@@ -432,6 +433,8 @@ def handle (s : Sexp) : Sexp :=
     | _, _ => .list [.atom "bad-args"]
   -- (bbops endian host hexstream pos (op ...)): the BitBuffer object model, see CstructModel/BitBufferProto.lean
   | .list (.atom "bbops" :: args) => BBuf.bbops args
+  -- (callroute (cls isBytes size|none ((isBytes bits size|none) ...)) (arg ...) nkw): the route of the class call, see CstructModel/Call.lean
+  | .list (.atom "callroute" :: args) => Call.callroute args
   | _ => .list [.atom "bad-op"]
 
 partial def loop (h out : IO.FS.Stream) : IO Unit := do
